@@ -108,7 +108,7 @@ def run(ctx):
     A = _adapter()
     run_mc(ctx)
     traces = []
-    for labels, s in A.c19_streams(ctx.rng, thorough=not ctx.quick, nrandom=ctx.pick(200, 3000)):
+    for labels, s in A.c19_streams(ctx.rng, thorough=not ctx.quick, nrandom=ctx.pick(200, 1500)):
         cuts = ()
         x = ctx.rng.random()
         if x < ctx.pick(0.15, 0.3):
@@ -150,7 +150,7 @@ def run_mc(ctx):
 
     if os.path.exists(os.path.join(SPECS, "HttpSrvWireMC.tla")):
         # no -coverage here: TLC's cost model of the deeply recursive parser operators exhausts the heap
-        for cfg in ctx.pick(["HttpSrvWireMC.cfg"], ["HttpSrvWireMC.cfg", "HttpSrvWireMC.thorough.cfg"]):
+        for cfg in ctx.pick(["HttpSrvWireMC.cfg"], ["HttpSrvWireMC.pipe.cfg", "HttpSrvWireMC.thorough.cfg"]):
             r = ctx.mc("HttpSrvWireMC", cfg, coverage=False, timeout=ctx.pick(900, 3000))
             if not r.ok:
                 raise MachineryError("HttpSrvWire reference inconsistent with its serialiser: %s\n%s" % (r.error, "".join(r.cex[-2:])[-3000:]))
